@@ -591,6 +591,12 @@ class Renderer:
         self.spelling, self.shuffle, self.descriptive = spelling, shuffle, descriptive
         self.names = {}
         self.name_of = {}      # (kind, name index) -> rendered name
+        if numeric_names == "odd":
+            # names are arbitrary: attribute names need only be dotless, entity names / aliases may carry spaces (also
+            # leading and trailing), hyphens, parentheses, non-ASCII letters
+            numeric_names = False
+            self.attr_name = lambda n: ["attr%d", "unit-price %d", "attr(%d)", "at tr%d ", "\u00e5ttr %d", "a/%d+b"][n % 6] % n
+            self.entity_name = lambda kind, n: ["%s %d", "%s %d ", " %s %d", "%s-%d (x)", "%s  %d", "\u00e9%s %d"][n % 6] % (kind, n)
         for coll, kind, nk in (("parties", "party", "name"), ("otypes", "type", "name"), ("promises", "promise", "name"),
                                ("actions", "action", "name"), ("checkpoints", "checkpoint", "alias"), ("groups", "group", "name")):
             ids = [e["id"] for e in s[coll]]
